@@ -3,9 +3,10 @@
  *   schema <dsl> <yang-hex>             register the schema named by the DSL token      -> ok <n> <node-summary>*
  *   canon <dsl> <dump>                  build the tree through lyd_new_* and dump it    -> ok <dump>
  *   build <dsl> <desc>                  build explicit nodes, validate (adds defaults)  -> ok <dump> | err Invalid   [impl only]
- *   diff <dsl> <A> <B> <opts>           lyd_diff_siblings                               -> ok <diff-dump>
- *   diffapply <dsl> <A> <B> <opts>      lyd_diff_apply_all(dup A, diff(A,B))            -> ok <dump> | err <E>
- *   apply3 <dsl> <A> <B> <C> <opts>     lyd_diff_apply_all(dup C, diff(A,B))            -> ok <dump> | err <E>
+ *   diff <dsl> <A> <B> <opts> <fx>      lyd_diff_siblings                               -> ok <diff-dump> <index of the returned node>
+ *   diffapply <dsl> <A> <B> <opts> <fx> lyd_diff_apply_all(copy of A, diff(A,B))        -> ok <dump> | err <E>
+ *   apply3 <dsl> <A> <B> <C> <opts> <fx>  lyd_diff_apply_all(C, diff(A,B))              -> ok <dump> | err <E>
+ *        (<fx> = "fx=<ids>": repaired findings the MODEL has to follow; ignored here)
  *   law <dsl> <A> <B> <opts>            C06's laws on the implementation                -> ok <name>=<verdict>*          [impl only]
  *   leakcheck                                                                         -> ok <n>
  * Trees travel as hex(canonical dump) (treeproto.h). <opts>: 1 = LYD_DIFF_DEFAULTS.                                   */
@@ -100,6 +101,23 @@ nprev(const struct lyd_node *n)
 
     for ( ; n && n->prev->next; n = n->prev) ++k;
     return k;
+}
+
+/* a non-presence container flagged default although it has an explicit (non-default) child */
+static int
+np_stale(const struct lyd_node *first)
+{
+    const struct lyd_node *a, *c;
+
+    LY_LIST_FOR(first, a) {
+        if (a->schema && (a->schema->nodetype == LYS_CONTAINER) && !(a->schema->flags & LYS_PRESENCE) && (a->flags & LYD_DEFAULT)) {
+            LY_LIST_FOR(lyd_child(a), c) {
+                if (!(c->flags & LYD_DEFAULT)) return 1;
+            }
+        }
+        if (np_stale(lyd_child(a))) return 1;
+    }
+    return 0;
 }
 
 static int
@@ -203,6 +221,10 @@ op_law(const char *id, const struct tp_schema *s, const char *atok, const char *
         r1 = dumps_nonew(s, A2);
         bn = dumps_nonew(s, B);
         fprintf(stdout, " exact=%d", !strcmp(r1, bn));
+        if (dflt) {
+            /* printing the result with LYD_PRINT_WD_TRIM must not lose explicit nodes below a stale default container */
+            fprintf(stdout, " npstale=%d", np_stale(A2));
+        }
         if (!dflt) fprintf(stdout, " reval=%s", lyd_validate_module(&A2, s->mod, 0, NULL) ? "err" : "ok");
         fprintf(stdout, " cmp=%d", same(A2, B, dflt));
         if (!dflt) {
@@ -281,7 +303,7 @@ main(void)
             }
             lyd_free_all(t);
             free(text);
-        } else if (!strcmp(op, "diff") && r.ntok == 7) {
+        } else if (!strcmp(op, "diff") && r.ntok == 8) {
             struct lyd_node *A, *B, *d = NULL;
             LY_ERR rc;
 
@@ -295,7 +317,7 @@ main(void)
                 vp_begin(id, "ok"); tp_field_dump(s, d); vp_field_u(nprev(d)); vp_end();
             }
             lyd_free_all(d); lyd_free_all(A); lyd_free_all(B);
-        } else if ((!strcmp(op, "diffapply") && r.ntok == 7) || (!strcmp(op, "apply3") && r.ntok == 8)) {
+        } else if ((!strcmp(op, "diffapply") && r.ntok == 8) || (!strcmp(op, "apply3") && r.ntok == 9)) {
             int three = (op[0] == 'a');
             struct lyd_node *A, *B, *C = NULL, *d = NULL;
             LY_ERR rc;
@@ -306,7 +328,7 @@ main(void)
             rc = lyd_diff_siblings(A, B, atoi(r.tok[three ? 7 : 6]) ? LYD_DIFF_DEFAULTS : 0, &d);
             if (!three) {
                 /* a second, independently built A: lyd_dup_siblings() leaves an incomplete sorting tree behind when one
-                 * (leaf-)list directly follows another (finding F55), which misplaces later sorted inserts */
+                 * (leaf-)list directly follows another (finding F125), which misplaces later sorted inserts */
                 char *text = vp_unhex(r.tok[4], NULL);
 
                 tp_load(s, text, 1, &C);
